@@ -1999,6 +1999,8 @@ def properties_to_expression_tree(var: CanBehaveLikeAVariable, properties: Dict[
 
 
 def _optimize_or(left: SymbolicExpression, right: SymbolicExpression) -> OR:
+    # a plain value (e.g. a boolean constant) is a valid condition, like for and_.
+    left, right = (o if isinstance(o, SymbolicExpression) else Literal(o) for o in (left, right))
     left_vars = left._unique_variables_.filter(lambda v: not isinstance(v.value, Literal))
     right_vars = right._unique_variables_.filter(lambda v: not isinstance(v.value, Literal))
     if left_vars == right_vars:
